@@ -2022,7 +2022,7 @@ class Interp:
             if m in ('any', 'all'):
                 return (_any if m == 'any' else _all)(v, kw.get('axis', args[0] if args else None))
             if m == 'astype' or m == 'copy':
-                return v
+                return v.copy()          # a new array, as in numpy (in-place writes to it do not reach v)
             if m == 'take':
                 i = toint(args[0]); ax = kw.get('axis', args[1] if len(args) > 1 else None)
                 return np.take(v, i, axis=ax, mode='wrap')
